@@ -3,6 +3,15 @@
 #include "isog.h"
 #include "gf_constants.h"
 
+#ifdef SQISIGN_SQISIGN2D_WEST_AC24_VERIF
+/* verification hooks (C10): candidates whose hint counter is below verif_basis_force_fail[k] are treated as
+ * failing the curve test (k = 0: point not above (0,0), k = 1: point above), so that the fallback beyond the
+ * 20 table entries can be exercised; verif_basis_trace, when set, receives the x-coordinate selected by each
+ * search (which = 0/1) and used by each from_hint routine (which = 2/3) before cofactor clearing. */
+int verif_basis_force_fail[2] = { 0, 0 };
+void (*verif_basis_trace)(int which, int hint, const fp2_t *x) = 0;
+#endif
+
 static void
 xTPL(ec_point_t *Q, const ec_point_t *P, const ec_point_t *A3)
 {
@@ -784,7 +793,17 @@ ec_curve_to_point_2f_above_montgomery(ec_point_t *P, const ec_curve_t *curve)
         fp_add(&t0.re, &t0.re, &one); // x^2 + (A/C)*x + 1
         fp2_mul(&t0, &t0, &x);        // x^3 + (A/C)*x^2 + x
 
+#ifdef SQISIGN_SQISIGN2D_WEST_AC24_VERIF
+        if (hint < verif_basis_force_fail[1]) {
+            hint += 1;
+            continue;
+        }
+#endif
         if (fp2_is_square(&t0)) {
+#ifdef SQISIGN_SQISIGN2D_WEST_AC24_VERIF
+            if (verif_basis_trace)
+                verif_basis_trace(1, hint, &x);
+#endif
             fp2_copy(&P->x, &x);
             fp2_set_one(&P->z);
             break;
@@ -837,6 +856,10 @@ ec_curve_to_point_2f_above_montgomery_from_hint(ec_point_t *P, const ec_curve_t 
     // fp_set_one(&z2.im);
     fp2_mul(&x, &z2, &alpha);
 
+#ifdef SQISIGN_SQISIGN2D_WEST_AC24_VERIF
+    if (verif_basis_trace)
+        verif_basis_trace(3, hint, &x);
+#endif
     // Set the point
     fp2_copy(&P->x, &x);
     fp2_set_one(&P->z);
@@ -896,7 +919,17 @@ ec_curve_to_point_2f_not_above_montgomery(ec_point_t *P, const ec_curve_t *curve
         fp2_add(&t1, &t1, &curve->C); // C*x^2 + A*x + C
         fp2_mul(&t1, &t1, &t0);       // C^2*x^3 + A*C*x^2 + C^2*x = C^2*y^2
 
+#ifdef SQISIGN_SQISIGN2D_WEST_AC24_VERIF
+        if (hint < verif_basis_force_fail[0]) {
+            hint += 1;
+            continue;
+        }
+#endif
         if (fp2_is_square(&t1)) {
+#ifdef SQISIGN_SQISIGN2D_WEST_AC24_VERIF
+            if (verif_basis_trace)
+                verif_basis_trace(0, hint, &x);
+#endif
             fp2_copy(&P->x, &x);
             fp2_set_one(&P->z);
             break;
@@ -930,6 +963,10 @@ ec_curve_to_point_2f_not_above_montgomery_from_hint(ec_point_t *P,
         fp_set_one(&x.im);
     }
 
+#ifdef SQISIGN_SQISIGN2D_WEST_AC24_VERIF
+    if (verif_basis_trace)
+        verif_basis_trace(2, hint, &x);
+#endif
     fp2_copy(&P->x, &x);
     fp2_set_one(&P->z);
 }
